@@ -2187,6 +2187,15 @@ int sxiWrUnscanToken(SExpr s)
 
 		DFloatSprint(buf, sxiToFloat(s));
 
+		/* "%#.17g" leaves a bare point on a 17-digit integral value
+		 * ("32409662051250700."), which the reader does not accept
+		 * in front of an exponent: give the point a digit. */
+		c = strchr(buf, '.');
+		if (c && !isdigit((unsigned char) c[1])) {
+			memmove(c + 2, c + 1, strlen(c + 1) + 1);
+			c[1] = '0';
+		}
+
 		for (c = buf; *c; c++)
 			if (isalpha(*c)) {
 				*c = s->sxFloat.marker;
